@@ -14,7 +14,7 @@ import copy
 from vf import gen_sched
 
 PATHS = ["completion", "limit", "recur-raise", "enter-raise", "extend-enter-raise", "remove",
-         "kbint-in-doer", "kbint-sched", "hook-acts", "extend-idle-always"]
+         "kbint-in-doer", "kbint-sched", "hook-acts", "extend-idle-always", "extend-present"]
 
 
 def _schedulers(prog):
@@ -95,6 +95,8 @@ def make_case(rng, path, *, nmax=8, depth=3, mixed_tocks=True):
         return make_hook_acts(rng)
     if path == "extend-idle-always":
         return make_extend_idle_always(rng)
+    if path == "extend-present":
+        return make_extend_present(rng)
     if prog["limit"] is None and path in ("kbint-sched",) and gen_sched.needs_limit(prog["doers"]):
         prog["limit"] = prog["tock"] * 10
     return case
@@ -210,3 +212,43 @@ def make_extend_idle_always(rng):
     prog = {"tock": tock, "tyme": 0.0, "limit": limit if limit else tock * (k + 4), "runner": "do", "doers": top,
             "pool": news, "dyadic": True}
     return {"prog": prog, "path": "extend-idle-always", "fault": {"stop": stop, "step": k, "group": group["id"]}}
+
+
+def make_extend_present(rng):
+    """Running doers call extend() with lists that name doers ALREADY present in that scheduler: themselves (while they
+    are the doer in the scheduler's hand), siblings that already ran / have not run yet / are not due / have completed,
+    their own ancestor DoDoers, the scheduler's own list object, equal-but-not-identical bound methods, optionally
+    mixed with one genuinely new doer.  Adding a present doer must do nothing: nobody may be entered a second time."""
+    stop = rng.choice(["limit", "completion", "recur-raise", "limit"])
+    case = make_case(rng, stop)
+    prog = case["prog"]
+    leaves = _running_leaves(prog)
+    ids = gen_sched.Ids()
+    ids.n = 500
+    pool = list(prog.get("pool", []))
+    for _ in range(rng.randint(1, 4)):
+        if not leaves:
+            break
+        caller = rng.choice(leaves)
+        scheds = [("doist", prog["doers"])] + [(g["id"], g["doers"]) for g in gen_sched.groups_of(prog["doers"])
+                                               if _contains(g, caller["id"])]
+        sid, members = rng.choice(scheds)
+        cand = [m["id"] for m in members]
+        picked = rng.sample(cand, rng.randint(1, min(3, len(cand))))
+        mine = next((m["id"] for m in members if _contains(m, caller["id"])), None)
+        if mine and rng.random() < 0.6 and mine not in picked:
+            picked.append(mine)          # the caller itself, or its ancestor DoDoer, as seen from that scheduler
+        if rng.random() < 0.15:
+            picked = ["*"]
+        elif rng.random() < 0.3:
+            new = gen_sched.gen_leaf(rng, ids, prog["tock"], forever_p=0.5, enter_finish_p=0.0)
+            pool.append(new)
+            picked.insert(rng.randint(0, len(picked)), new["id"])
+        last = caller["end"][0] if caller.get("end") else 5
+        k = rng.randint(1, max(1, last))
+        caller.setdefault("acts", {}).setdefault(str(k), []).append(["extend", sid, picked, False, rng.random() < 0.4])
+    prog["pool"] = pool
+    if prog["limit"] is None and gen_sched.needs_limit(prog["doers"] + pool):
+        prog["limit"] = prog["tock"] * 9
+    case["path"] = "extend-present"
+    return case
